@@ -199,6 +199,24 @@ fn check_quantity_ops(env: &Env, i: usize, val: &Value, out: &mut Vec<Violation>
         ("fit".into(), u.system, true),
     ];
     ops.push(("convert(SameSystem)".into(), u.system, true));
+    // explicit target units: every best unit of the quantity in both systems
+    let mut targets: Vec<Arc<Unit>> = conv.best_units(u.physical_quantity, None);
+    targets.dedup_by(|a, b| a.symbol() == b.symbol());
+    for t in &targets {
+        local.evaluations += 1;
+        let mut q = q0.clone();
+        let case = json!({"kind": "quantity", "op": format!("convert(unit {})", t.symbol()), "unit": u.symbol(), "value": format!("{val:?}"), "value_json": serde_json::to_value(val).unwrap_or(J::Null)});
+        match q.convert(t.symbol(), conv) {
+            Err(e) => out.push(Violation::new("conversion of a known unit failed", format!("{q0} to {}: {e}", t.symbol()), case)),
+            Ok(()) => {
+                let same_unit = q.unit().and_then(|x| conv.find_unit(x)).map(|x| *x == **t).unwrap_or(false);
+                let after: Vec<f64> = value_parts(q.value()).iter().map(|x| amount(t, *x)).collect();
+                if !same_unit || after.len() != before.len() || !before.iter().zip(&after).all(|(a, b)| close(*a, *b, 1e-9, if temp { 273.15 } else { 1e-300 })) {
+                    out.push(Violation::new("conversion does not preserve the amount", format!("{q0} to {} gave {q:?}: amounts in base units {before:?} -> {after:?}", t.symbol()), case));
+                }
+            }
+        }
+    }
     for (name, sys, same) in ops {
         local.evaluations += 1;
         let mut q = q0.clone();
